@@ -30,7 +30,10 @@ type Ctx struct {
 	Replay json.RawMessage
 }
 
-func (c *Ctx) Quick() bool { return c.Tier != "thorough" }
+// Quick reports whether the quick-size workload is wanted. A leg can ask
+// for the quick-size workload inside the thorough tier (e.g. the -race leg)
+// with VERIF_SMALL=1.
+func (c *Ctx) Quick() bool { return c.Tier != "thorough" || os.Getenv("VERIF_SMALL") != "" }
 
 type check struct {
 	run func(*Ctx)
